@@ -75,6 +75,55 @@ pub fn run_impl(src: &str, tree: Option<&Node>, model: &Model, entry: Entry, wit
     }
 }
 
+pub const TYPED_NAMES: [&str; 14] = [
+    "Node::eval_string_with_context_mut",
+    "Node::eval_int_with_context_mut",
+    "Node::eval_float_with_context_mut",
+    "Node::eval_number_with_context_mut",
+    "Node::eval_boolean_with_context_mut",
+    "Node::eval_tuple_with_context_mut",
+    "Node::eval_empty_with_context_mut",
+    "eval_string_with_context_mut",
+    "eval_int_with_context_mut",
+    "eval_float_with_context_mut",
+    "eval_number_with_context_mut",
+    "eval_boolean_with_context_mut",
+    "eval_tuple_with_context_mut",
+    "eval_empty_with_context_mut",
+];
+
+/// Runs one of the 14 typed mutable entry points on a RecordingContext and returns (effect log, final variables).
+pub fn run_typed(src: &str, tree: &Node, model: &Model, which: usize) -> (Vec<REvent>, BTreeMap<String, RV>) {
+    let log = observe::new_log();
+    let ctx = api::ctx_from_model(model, &log);
+    let mut rc = RecordingContext::new(ctx, log.clone());
+    let _ = observe::guard(|| match which {
+        0 => drop(tree.eval_string_with_context_mut(&mut rc)),
+        1 => drop(tree.eval_int_with_context_mut(&mut rc)),
+        2 => drop(tree.eval_float_with_context_mut(&mut rc)),
+        3 => drop(tree.eval_number_with_context_mut(&mut rc)),
+        4 => drop(tree.eval_boolean_with_context_mut(&mut rc)),
+        5 => drop(tree.eval_tuple_with_context_mut(&mut rc)),
+        6 => drop(tree.eval_empty_with_context_mut(&mut rc)),
+        7 => drop(evalexpr::eval_string_with_context_mut(src, &mut rc)),
+        8 => drop(evalexpr::eval_int_with_context_mut(src, &mut rc)),
+        9 => drop(evalexpr::eval_float_with_context_mut(src, &mut rc)),
+        10 => drop(evalexpr::eval_number_with_context_mut(src, &mut rc)),
+        11 => drop(evalexpr::eval_boolean_with_context_mut(src, &mut rc)),
+        12 => drop(evalexpr::eval_tuple_with_context_mut(src, &mut rc)),
+        _ => drop(evalexpr::eval_empty_with_context_mut(src, &mut rc)),
+    });
+    let mut effects = Vec::new();
+    for e in observe::take_log(&log) {
+        match e {
+            Event::UserCall(n, v) => effects.push(REvent::UserCall(n, RV::from_value(&v))),
+            Event::Set(n, v, ok) => effects.push(REvent::Set(n, RV::from_value(&v), ok)),
+            _ => {},
+        }
+    }
+    (effects, api::ctx_vars(&rc))
+}
+
 pub struct RefRun {
     pub result: Result<RV, RErr>,
     pub after: Model,
